@@ -60,12 +60,24 @@ def _events(ctx: Ctx, f, coord: str, dim: str):
       "that dimension's iteration, is normalize(): orthogonalisation and the centroid step are always followed by a "
       "normalisation before the vector is kept", floor=3)
 def r1(ctx: Ctx) -> None:
-    f = ctx.func(SPECALG, "spectral_layout_die")
+    top = ctx.func(SPECALG, "spectral_layout_die")
+    f = top
+
+    def matrix_of(fn):
+        for c in walk_own(fn.node):
+            if isinstance(c, ast.Call) and call_name(c) == "orthogonalize" and c.args and isinstance(c.args[0], ast.Name):
+                return c.args[0].id
+        return None
     # the coordinate matrix: the local that is returned (sliced) and passed to orthogonalize
-    coord = None
-    for c in walk_own(f.node):
-        if isinstance(c, ast.Call) and call_name(c) == "orthogonalize" and c.args and isinstance(c.args[0], ast.Name):
-            coord = c.args[0].id
+    coord = matrix_of(f)
+    if coord is None:
+        # the iteration of one dimension cut out into a function of its own (one that cannot be looked through): the typestate is
+        # followed there, and every way out of that function is the end of the dimension's iteration
+        from .common import new_helper_calls
+        hosts = [h for h, _ in new_helper_calls(ctx, top) if matrix_of(h) is not None]
+        if len(hosts) == 1:
+            f = hosts[0]
+            coord = matrix_of(f)
     ctx.require(coord is not None, "spectral_layout_die: orthogonalize(coord, ...) call not found")
     g, ev = _events(ctx, f, coord, "d")
     n_norm = sum(1 for e in ev.values() for x in e if x[0] == "norm")
@@ -103,6 +115,38 @@ def r1(ctx: Ctx) -> None:
                     work.append(edge.dst)
             seen_first.add(edge.dst)
     # check points: the statement(s) that close a dimension's iteration (last statement of the 'for d' body) and the return
+    if f is not top:
+        # check points: every return of the cut-out function (the state when it is reached) -- it has no other way out
+        rets_ = [n for n in walk_own(f.node) if isinstance(n, ast.Return)]
+        ctx.require(len(rets_) >= 1 and isinstance(f.node.body[-1], ast.Return), f"{f.qualname}: does not end in a return")
+        for node_ast in rets_:
+            state = IN.get(g.node_for(node_ast), {}).get("@coord", "D")
+            ctx.site(f.where, "coordinate vector is in the normalised state at every return of the dimension's iteration", state=state)
+            if state != "N":
+                ctx.report(f.where, f"not-normalised-at {norm_stmt(node_ast)[:60]}", "a path reaches the end of a dimension's iteration with a coordinate vector whose last "
+                           "writer is not normalize(): the disc of a module can stick out of the die", lineno=node_ast.lineno)
+        # in the caller: the matrix handed to the helper is the one returned, and nothing writes it after the calls
+        calls_ = [c for c in walk_own(top.node) if isinstance(c, ast.Call) and call_name(c) == f.name]
+        ctx.require(len(calls_) >= 1, f"spectral_layout_die: call of {f.name} not found")
+        pos_ = [a.arg for a in f.node.args.posonlyargs + f.node.args.args].index(coord)
+        mats = {ast.unparse(c.args[pos_]) for c in calls_ if len(c.args) > pos_ and isinstance(c.args[pos_], ast.Name)}
+        ctx.require(len(mats) == 1, "spectral_layout_die: the coordinate matrix handed to the iteration was not found")
+        mat = mats.pop()
+        last_call = max(c.lineno for c in calls_)
+        writes = [n for n in walk_own(top.node) if getattr(n, "lineno", 0) > last_call and (
+            (isinstance(n, ast.Subscript) and isinstance(n.ctx, (ast.Store, ast.Del)) and ast.unparse(n).startswith(mat + "["))
+            or (isinstance(n, ast.Call) and call_name(n) in ("orthogonalize", "normalize") and n.args and ast.unparse(n.args[0]).startswith(mat)))]
+        ctx.site(top.where, "no write of the coordinates after the iterations", writes_after=len(writes))
+        for n in writes:
+            ctx.report(top.where, f"write-after-normalise {ast.unparse(n)[:60]}", "the coordinates are modified after their last normalisation", lineno=n.lineno)
+        rets = [n for n in walk_own(top.node) if isinstance(n, ast.Return)]
+        ok = len(rets) == 1 and (any(isinstance(x, ast.Name) and x.id == mat for x in ast.walk(rets[0].value)) or
+                                 any(isinstance(st, ast.Assign) and isinstance(st.value, ast.Subscript) and isinstance(st.value.value, ast.Name) and st.value.value.id == mat
+                                     for st in walk_own(top.node)))
+        ctx.site(top.where, "the returned coordinates are the dimensions 1.. of the normalised matrix")
+        if not ok:
+            ctx.report(top.where, "returned-matrix", "spectral_layout_die does not return the normalised coordinate matrix", lineno=top.node.lineno)
+        return
     fors = [n for n in walk_own(f.node) if isinstance(n, ast.For) and any(isinstance(c, ast.Call) and call_name(c) == "orthogonalize" for c in ast.walk(n))]
     ctx.require(len(fors) == 1, "loop over the dimensions not found")
     last = fors[0].body[-1]
